@@ -582,7 +582,11 @@ func monitor(c hxlib.Case, outs []string) (vs []hxlib.Violation) {
 				}
 			}
 			// hooks after the last call of each phase / phases without any call (only where the record is known)
-			if vetoed == nil {
+			// A write through an interface that a database accepting none (push-only injected storage) refused with
+			// ErrReadOnly was not performed: it is neither a get nor a put operation, no hook is owed a call (calls that
+			// were made are judged above all the same) and nothing is delivered (success is false below).
+			refusedRO := kind == "pushonly" && o == "err readonly" && f[0] != "get" && f[0] != "exists" && f[0] != "push"
+			if vetoed == nil && !refusedRO {
 				// PreGet: by key, for operations that load the record
 				if f[0] != "put" && f[0] != "putnew" && f[0] != "push" {
 					for j := pos["pg"]; j < len(hooks); j++ {
